@@ -39,11 +39,13 @@ class KwDict(Obj):
         k = args[0].as_string()
         st = st.fork()
         st.ghost['popped'] = st.ghost.get('popped', ()) + (k,)
+        if k not in self.entries:
+            return [('ok', st, fresh('kwargs_entry_' + k.strip('_')))]       # an entry this contract does not know: opaque
         return [('ok', st, self.entries[k])]
 
     def as_kwpack(self, ex, st):
         ex.oblige(st, 'the private entries were removed from kwargs before the target is called',
-                  z3.BoolVal(set(st.ghost.get('popped', ())) == set(self.entries)))
+                  z3.BoolVal(set(self.entries) <= set(st.ghost.get('popped', ()))))
         return self.pack
 
 
